@@ -86,6 +86,16 @@ class FragileSerDes(SerDes):
         return from_tagged(json.loads(data)["v"])
 
 
+class _BotoProxy:
+    """The service client a warm handler was decorated with: forwards to the current invocation's fake client."""
+
+    def __init__(self, warm):
+        self._warm = warm
+
+    def __getattr__(self, name):
+        return getattr(self._warm["boto"], name)
+
+
 class LambdaCtx:
     aws_request_id = "req-1"
     log_group_name = None
@@ -817,6 +827,7 @@ def run_execution(case: dict, *, max_invocations: int | None = None, hooks: dict
 
         ext = _D(ext)
     delivered_ext: set = set()
+    warm: dict = {}
     consecutive_raises = 0
     orig_cc = sdk_state.ExecutionState.create_checkpoint
 
@@ -870,7 +881,12 @@ def run_execution(case: dict, *, max_invocations: int | None = None, hooks: dict
             boto = FakeBoto(backend, sched, plan, inv, hooks=_mk_hooks(run, backend, ext, delivered_ext, hooks))
             interp.boto = boto
             boto.clock = run.clock
-            handler = durable_execution(interp.handler, boto3_client=boto)
+            # a warm sandbox: the decorated handler object (and whatever it keeps) lives on from one invocation to the
+            # next; only after a process death (crash) a new one is built
+            warm["interp"], warm["boto"] = interp, boto
+            if warm.get("handler") is None or case.get("cold"):
+                warm["handler"] = durable_execution(lambda ev, cx: warm["interp"].handler(ev, cx), boto3_client=_BotoProxy(warm))
+            handler = warm["handler"]
             lam = LambdaCtx()
             try:
                 n_hist = len(event["InitialExecutionState"]["Operations"])
@@ -907,6 +923,7 @@ def run_execution(case: dict, *, max_invocations: int | None = None, hooks: dict
                 break
             if sched.outcome == "crashed":
                 rec["outcome"] = "crashed"
+                warm["handler"] = None  # the process died: the next invocation starts in a fresh sandbox
                 continue
             if sched.root_exc is not None:
                 rec["outcome"] = "raised"
